@@ -139,6 +139,10 @@ def run(ctx, col: Collector):
                 q = f.quote
                 quotes.add(q)
                 cons = f'{base}:{q or "bare"}'
+                if q == '?':
+                    col.unk('C13-sink', f'{base}:context@{f.fn.qualname}', f'{label}: cannot read the quote context of `{f.template[:60]}` in {f.fn.qualname} (the neighbouring '
+                            f'pieces are not literal text)', node=f.node, file=f.fn.file)
+                    continue
                 if q not in ("'", "'''", '"'):
                     col.bad('C13-sink', cons + ':quoted', f'{label} is written by {f.fn.qualname} ({f.where}) outside a string literal (template `{f.template[:50]}`): '
                             f'any text with a space or punctuation does not re-parse', node=f.node, file=f.fn.file)
@@ -160,6 +164,10 @@ def run(ctx, col: Collector):
                     col.bad('C13-sink', cons + ':escaped-once', f'{label} passes {npass} escaping helpers ({[w for w in wr if not w.startswith(".")]}) before it is written by '
                             f'{f.fn.qualname}: escapes are escaped again, so the reader gets backslashes that were not in the text (or a literal that '
                             f'ends early)', node=f.node, file=f.fn.file)
+                if found is None and any(not w.startswith('.') and unreadable_text_helper(ti, f.fn, s.fn, w) for w in wr):
+                    col.unk('C13-sink', cons + ':sanitised', f'{label}: a helper on the way ({[w for w in wr if not w.startswith(".")]}) rewrites the text in a form this rule '
+                            f'cannot read (not a literal pattern / replace)', node=f.node, file=f.fn.file)
+                    continue
                 if found is None:
                     col.bad('C13-sink', cons + ':sanitised', f'{label} is interpolated between {q} quotes by {f.fn.qualname} ({f.where}) without passing an escaping '
                             f'helper: a {qc} (or a backslash) in the text ends the literal early or is lost on re-parsing', node=f.node, file=f.fn.file)
@@ -184,7 +192,7 @@ def run(ctx, col: Collector):
                               f'{fdef.qualname}: {san.notes}', node=fdef.node, file=fdef.file)
             # multi-line switch
             single = {q for q in quotes if q in ("'", '"')}
-            if single:
+            if single and '?' not in quotes:
                 switch = "'''" in quotes and all(any("'\\n' in" in g for g, pol in allguards[id(f)]) for f, _ in finals if f.quote in ("'", '"', "'''"))
                 col.check(switch, 'C13-sink', base + ':multi-line-switch', f'{label}: a value containing a line break is written triple-quoted',
                           f'{label} is written by {s.fn.qualname} only in the single-line form ({sorted(single)}) / without a line-break test: a multi-line value is '
@@ -500,3 +508,16 @@ def indented_functions(ctx, ti: TemplateIndex, envs) -> Tuple[Set[str], Dict[str
                         indented.add(t.id)
                         changed = True
     return indented, local_vars
+
+
+def unreadable_text_helper(ti: TemplateIndex, fn1: FuncInfo, fn2: FuncInfo, name: str) -> bool:
+    """name is a package function that manipulates text with re / replace / translate but whose body sanitiser_of cannot read."""
+    t = ti.resolve_func(fn1, name) or ti.resolve_func(fn2, name)
+    if t is None:
+        return False
+    if sanitiser_of(ti.idx, t) is not None:
+        return False
+    for n in ast.walk(t.node):
+        if isinstance(n, ast.Call) and isinstance(n.func, ast.Attribute) and n.func.attr in ('sub', 'subn', 'replace', 'translate', 'escape'):
+            return True
+    return False
